@@ -85,7 +85,12 @@ def fingerprint(f):
                 arm = next((a for a in ('body', 'orelse', 'finalbody')
                             if isinstance(getattr(par, a, None), list) and
                             child in getattr(par, a)), 'x')
-                path.append('%s%d.%s' % (type(par).__name__, compound_ids[id(par)], arm))
+                from .pathcond import terminates
+                if isinstance(par, ast.If) and arm == 'orelse' and terminates(par.body):
+                    # `if c: return ... else: B` is `if c: return ...` followed by B
+                    pass
+                else:
+                    path.append('%s%d.%s' % (type(par).__name__, compound_ids[id(par)], arm))
             child, par = par, getattr(par, '_parent', None)
         depth.append('/'.join(reversed(path)))
     kinds = [type(n).__name__ for n in own_nodes(node)
@@ -181,9 +186,11 @@ def compare(ref, cur, vocab, local_names, local_names_ref=frozenset()):
                     if isinstance(a_, ast.Assign) and len(a_.targets) == 1 and \
                             isinstance(a_.targets[0], ast.Name) and \
                             a_.targets[0].id not in cur['names'] and \
-                            any(unparse(a_.value) in c for c in cur['stmts'] + [
-                                t for _, t in cur.get('iters', [])]):
-                        return out
+                            (any(unparse(a_.value) in c for c in cur['stmts'] + [
+                                t for _, t in cur.get('iters', [])]) or
+                             (sorted(map(str, ref['calls'])) == sorted(map(str, cur['calls'])) and
+                              sorted(ref['attrs']) == sorted(cur['attrs']))):
+                        return out      # every call and attribute of its value is still there
                     out.append(('statement dropped', st[:120]))
                 return out
     # E: arguments swapped
